@@ -134,7 +134,7 @@ func chance(t *rapid.T, label string, pct int) bool {
 }
 
 // StringValidations adds coherent string constraints to s.
-func stringValidations(t *rapid.T, s J, label string, noEnum bool) {
+func stringValidations(t *rapid.T, s J, label string, noEnum bool, allowEmpty bool) {
 	switch rapid.IntRange(0, 6).Draw(t, label+"_skind") {
 	case 0, 1: // none
 	case 2:
@@ -158,6 +158,9 @@ func stringValidations(t *rapid.T, s J, label string, noEnum bool) {
 		}
 		n := rapid.IntRange(1, 4).Draw(t, label+"_enumn")
 		pool := []string{"red", "green", "blue", "A", "b c", "1", "true", "x-y", "é", ""}
+		if !allowEmpty {
+			pool = pool[:len(pool)-1]
+		}
 		seen := map[string]bool{}
 		var e A
 		for i := 0; i < n; i++ {
@@ -265,7 +268,7 @@ func Simple(t *rapid.T, label string, o SimpleOpts, depth int) J {
 	switch k {
 	case "string":
 		s["type"] = "string"
-		stringValidations(t, s, label, o.NoEnum)
+		stringValidations(t, s, label, o.NoEnum, false)
 	case "fstring":
 		s["type"] = "string"
 		fs := o.Formats
@@ -339,7 +342,7 @@ func Schema(t *rapid.T, label string, o *Opts, depth int) J {
 	switch k {
 	case "string":
 		s["type"] = "string"
-		stringValidations(t, s, label, o.NoEnum)
+		stringValidations(t, s, label, o.NoEnum, true)
 	case "fstring":
 		s["type"] = "string"
 		fs := o.Formats
